@@ -4,7 +4,7 @@ CONSTANTS
   TypeTab <- RealTypes
   GraphLo = 33 GraphHi = 126 MaxBits = 64
   GPrec = 6 ByteMax = 255 DecLimit = 127
-  PrintTypes = {} IntFormats = {} FltFormats = {} Lefts = {}
+  PrintTypes = {} IntFormats = {} FltFormats = {} Lefts = {} FltLefts = {}
   FmtAlphabet = {} FmtLen = 0 DestAlphabet = {} DestLen = 0 DestSeps = {} DestMax = {}
   RDsts = {} RBases = {} RAlphabet = {} RLen = 0 VecTypes = {} VecLen = 0
 POSTCONDITION TraceAccepted
